@@ -33,5 +33,5 @@ SPEC = {
             "head/hhea/maxp/hmtx(/OS/2) provider, probed through find_good_cmap_subtable, Font::new and "
             "Font::lookup_glyph_index incl. the symbol area and Mac Roman characters; M = Mac Roman conversions both "
             "ways. distinct = distinct input lines; class histogram keys = kind/format/hit-or-not/enumeration status",
-    "search_factor": 3,
+    "search_factor": 2,
 }
